@@ -14,7 +14,10 @@
 //!   * `Function::locations()` == inventory as a multiset (each location exactly once);
 //!   * closure of `forward` from `RefProgramLocation::from_function` == own reachability;
 //!   * `ProgramLocation::from(r).apply(&p) == r`, same on `p.clone()`, `migrate` agrees;
-//!   * `from_address(p, a)` is an instruction with address `a` iff the inventory has one.
+//!   * `from_address(p, a)` is an instruction with address `a` iff the inventory has one;
+//!   * after `ControlFlowGraph::merge()` folded blocks of a function: the same enumeration /
+//!     converse / closure laws and `every stored edge joins two blocks`, `the entry is a block`,
+//!     judged against the function's storage read back through `blocks()` and `edges()`.
 
 use falcon::il;
 use falcon::il::{ProgramLocation, RefFunctionLocation, RefProgramLocation};
@@ -417,6 +420,110 @@ fn step(a: &RefProgramLocation, al: &Loc, fi: usize, all: &BTreeSet<Loc>, fwd: b
     Ok(out)
 }
 
+/// Navigation laws on a function whose content is read back from its own storage (used after
+/// `merge()`): every edge joins two blocks, the entry is a block, `locations()` lists the content
+/// once each, forward / backward are converse, and the closure of forward from `from_function` is
+/// what the edges reach from the entry block.
+fn navigate_read_back(f: &il::Function, fi: usize, entry_before: Option<usize>, obs: &mut Obs) -> Result<(), Failure> {
+    let blocks: BTreeMap<usize, Vec<usize>> = f.blocks().iter().map(|b| (b.index(), b.instructions().iter().map(|i| i.index()).collect())).collect();
+    let edges: BTreeSet<(usize, usize)> = f.edges().iter().map(|e| (e.head(), e.tail())).collect();
+    for (h, t) in &edges {
+        if !blocks.contains_key(h) || !blocks.contains_key(t) {
+            fv::fail!("C18|merged|edge-with-missing-end", "function {} after merge(): edge {}->{} is stored but the blocks are {:?}", fi, h, t, blocks.keys().collect::<Vec<_>>());
+        }
+    }
+    let entry = f.control_flow_graph().entry();
+    if entry_before.is_some() && !entry.map(|e| blocks.contains_key(&e)).unwrap_or(false) {
+        fv::fail!("C18|merged|entry-not-a-block", "function {} after merge(): the entry is {:?}, the blocks are {:?}", fi, entry, blocks.keys().collect::<Vec<_>>());
+    }
+    let mut want: Vec<Loc> = Vec::new();
+    for (b, is) in &blocks {
+        if is.is_empty() {
+            want.push(Loc::Empty(*b));
+        }
+        for i in is {
+            want.push(Loc::Instr(*b, *i));
+        }
+    }
+    for (h, t) in &edges {
+        want.push(Loc::Edge(*h, *t));
+    }
+    want.sort();
+    let want_set: BTreeSet<Loc> = want.iter().copied().collect();
+    let listed = match guard(|| f.locations()) {
+        Ok(v) => v,
+        Err(pi) => fv::fail!(format!("C18|merged|locations|{}", pi.sig()), "function {} after merge(): locations() panicked: {}", fi, pi.msg),
+    };
+    let mut got: Vec<Loc> = listed.iter().map(key_of).collect();
+    got.sort();
+    obs.count("locations-after-merge", want.len() as u64);
+    if got != want {
+        fv::fail!("C18|merged|locations|differs", "function {} after merge(): locations() = {:?}, the function holds {:?}", fi, got, want);
+    }
+    let mut refs: BTreeMap<Loc, RefProgramLocation> = BTreeMap::new();
+    for l in &want {
+        refs.insert(*l, mk(f, fi, *l)?);
+    }
+    let mut fwd: BTreeMap<Loc, BTreeSet<Loc>> = BTreeMap::new();
+    let mut bwd: BTreeMap<Loc, BTreeSet<Loc>> = BTreeMap::new();
+    for (l, r) in &refs {
+        fwd.insert(*l, step(r, l, fi, &want_set, true)?);
+        bwd.insert(*l, step(r, l, fi, &want_set, false)?);
+    }
+    for (a, succs) in &fwd {
+        for b in succs {
+            if !bwd[b].contains(a) {
+                fv::fail!(format!("C18|merged|converse|successor-lacks-predecessor|{}->{}", kind(a), kind(b)), "function {} after merge(): {} is in forward({}) but {} is not in backward({}) = {:?}", fi, show(b), show(a), show(a), show(b), bwd[b]);
+            }
+        }
+    }
+    for (b, preds) in &bwd {
+        for a in preds {
+            if !fwd[a].contains(b) {
+                fv::fail!(format!("C18|merged|converse|predecessor-lacks-successor|{}->{}", kind(a), kind(b)), "function {} after merge(): {} is in backward({}) but {} is not in forward({}) = {:?}", fi, show(a), show(b), show(b), show(a), fwd[a]);
+            }
+        }
+    }
+    if let Some(entry) = entry {
+        let start = match guard(|| RefProgramLocation::from_function(f)) {
+            Ok(Some(Ok(s))) => s,
+            Ok(Some(Err(e))) => fv::fail!("C18|merged|from_function|err", "function {} after merge(): from_function returned Err: {}", fi, e),
+            Ok(None) => fv::fail!("C18|merged|from_function|none", "function {} after merge(): from_function returned None although the entry is block {}", fi, entry),
+            Err(pi) => fv::fail!(format!("C18|merged|from_function|{}", pi.sig()), "function {} after merge(): from_function panicked: {}", fi, pi.msg),
+        };
+        let (_, sl) = pkey(&start);
+        if !want_set.contains(&sl) {
+            fv::fail!("C18|merged|from_function|not-a-location", "function {} after merge(): from_function returned {}", fi, show(&sl));
+        }
+        let mut seen: BTreeSet<Loc> = BTreeSet::new();
+        let mut stack = vec![sl];
+        while let Some(l) = stack.pop() {
+            if seen.insert(l) {
+                stack.extend(fwd[&l].iter().copied());
+            }
+        }
+        let mut rb: BTreeSet<usize> = BTreeSet::new();
+        let mut todo = vec![entry];
+        while let Some(b) = todo.pop() {
+            if rb.insert(b) {
+                todo.extend(edges.iter().filter(|e| e.0 == b).map(|e| e.1));
+            }
+        }
+        let model: BTreeSet<Loc> = want
+            .iter()
+            .copied()
+            .filter(|l| match l {
+                Loc::Instr(b, _) | Loc::Empty(b) => rb.contains(b),
+                Loc::Edge(h, _) => rb.contains(h),
+            })
+            .collect();
+        if seen != model {
+            fv::fail!("C18|merged|closure|differs", "function {} after merge(): repeated forward() from {} reaches {:?}; on paths from the entry block {} are {:?}", fi, show(&sl), seen, entry, model);
+        }
+    }
+    Ok(())
+}
+
 fn check(case: &Case, obs: &mut Obs) -> Result<(), Failure> {
     let invs: Vec<Inv> = case.fns.iter().map(inventory).collect();
 
@@ -697,6 +804,25 @@ fn check(case: &Case, obs: &mut Obs) -> Result<(), Failure> {
         }
     }
 
+    // ---- (4b) the same laws on every function after `ControlFlowGraph::merge()` folded some of
+    //      its blocks: judged against the function's own storage read back through `blocks()` /
+    //      `edges()` (the folding itself is C15's subject; here only navigation over its result)
+    for (fi, inv) in invs.iter().enumerate() {
+        let mut merged = program.function(fi).unwrap().clone();
+        match guard(|| merged.control_flow_graph_mut().merge()) {
+            Ok(Ok(())) => {}
+            Ok(Err(e)) => fv::fail!("C18|merged|merge-err", "function {}: merge() returned Err: {}", fi, e),
+            Err(pi) => fv::fail!(format!("C18|merged|merge|{}", pi.sig()), "function {}: merge() panicked: {}", fi, pi.msg),
+        }
+        if merged.blocks().len() != inv.blocks.len() {
+            obs.class("function-folded-by-merge");
+            if inv.edges.iter().any(|(h, t)| h != t && inv.edges.contains(&(*t, *h))) {
+                obs.class("folded-function-with-two-block-cycle");
+            }
+            navigate_read_back(&merged, fi, inv.entry, obs)?;
+        }
+    }
+
     // ---- (5) address lookup, every address in use and its neighbours
     let mut by_addr: BTreeMap<u64, BTreeSet<(usize, usize, usize)>> = BTreeMap::new();
     for (fi, inv) in invs.iter().enumerate() {
@@ -938,6 +1064,8 @@ fn main() -> std::process::ExitCode {
         ("lookup-address-above-every-function", 0.35),
         ("non-contiguous-instruction-indices", 0.20),
         ("block-emptied-by-removal", 0.10),
+        ("function-folded-by-merge", 0.30),
+        ("folded-function-with-two-block-cycle", 0.10),
     ];
     spec.crash_sig = |c: &Case| format!("C18|crash|{}-functions", c.fns.len());
     engine::main(spec)
